@@ -251,10 +251,21 @@ def _helpers(ctx: Ctx, r: RuleResult, pc, self_t: Term):
                     if isinstance(e, Loop):
                         over_all = any(isinstance(x, Call) and call_name(x) == 'simple_events' and call_recv(x) == self_e for x in walk(e.iter)) or \
                             any(isinstance(x, Call) and call_name(x) == 'simple_events' and call_recv(x) == self_e for v in (o.env or {}).values() for x in walk(v))
+                        if isinstance(e.iter, Op) and e.iter.op == 'not':
+                            over_all = False    # `while not pending`: the scan never starts
                         for rg, exc in e.raises:
-                            named = any(pol and isinstance(t, Op) and t.op == 'in' and isinstance(t.args[0], Attr) and t.args[0].name == 'name' for t, pol in norm_guards(rg))
-                            if 'HplSanityError' in repr(exc) and named and over_all:
-                                found = True
+                            tests = [t for t, pol in norm_guards(rg) if pol and isinstance(t, Op) and t.op == 'in' and isinstance(t.args[0], Attr) and t.args[0].name == 'name']
+                            if 'HplSanityError' in repr(exc) and tests and over_all:
+                                # the names seen so far are remembered: the path that does not raise records this name
+                                nm, seen_names = tests[0].args
+                                recorded = any(isinstance(c, Call) and call_name(c) in ('add', 'append') and call_recv(c) == seen_names and c.args == (nm,)
+                                               for pg, flow, binds, effs in e.paths for c in effs) or \
+                                    any(k for pg, flow, binds, effs in e.paths for k, v in binds if any(x == nm for x in walk(v)) and isinstance(v, Op) and v.op in ('|', '+'))
+                                if recorded:
+                                    found = True
+                                else:
+                                    r.fail('HplEventDisjunction.__attrs_post_init__:dup-memory', 'the scan for a repeated channel never records the names it has seen: no repetition is ever found', f0.where)
+                                    found = True
         if found:
             r.ok('HplEventDisjunction: HplSanityError when a channel name repeats among simple_events()')
         else:
